@@ -395,8 +395,8 @@ double one_normest_core(const gsl_matrix_complex *A, unsigned int t, unsigned in
     throw std::runtime_error("At least two iterations are needed.");
   if (t < 1 )
     throw std::runtime_error("At least one column is needed.");
-  if (t >= A->size1)
-    throw std::runtime_error("t should be smaller than the order of the matrix.");
+  if (t >= A->size1) //nothing to estimate: the exact norm is as cheap as t matrix-vector products
+    return exact_1_norm(A);
 
   unsigned int n = A->size1;
   unsigned int nmults = 0;
